@@ -10,7 +10,7 @@ META = {
     "level": "proof",
     "design_ref": "DESIGN.md §6 C13, notes/design-hashtable.md",
     "text": "Kernel-checked theorems, for every hash function with H k != 0 and every value type: the invariant (capacity a power of two, chains acyclic and complete, stored hash = H key, live keys distinct) holds for the empty table and is preserved by every operation (Insert, Get/operator[], assignment, lookups by key and index, Remove, RemoveIndex, Rename, Reserve, Resize, Expect, Compress, Clear, Reset, Sort, copy, move, operator+=); no operation faults (find never exhausts its fuel) and each refines the list-of-slots specification with equal outputs; lifted to every finite operation sequence; corollaries: live entries = the textbook insertion-ordered association list, lookup = history of stores/removals, key<->index agreement, Sort permutes the entries; StringUtils::Hash satisfies H k != 0. The model is tied to the real headers by comparing Size, Capacity, every bucket head and every item's key/Hash/Next/value after every step of operation sequences over three key alphabets (duplicates and embedded NUL; 64 keys colliding at every capacity 2..64; random bytes) for HArray<String,String>, HArray<String,Value> and HList<String>.",
-    "note": "Trusted: Lean kernel; axioms ⊆ {propext, Quot.sound, Classical.choice}; the correspondence harness (ASan/UBSan, exact-size key buffers, bucket heads read at Storage()-Capacity()). The ordered-map predicate is evaluated on the real object after every step twice: by the Lean slot specification (driver op htspec) and by a std::vector reference inside the harness. Not modelled: allocation failure, 32-bit overflow of the allocation size (tables >= 2^27 slots), aliasing of operands (h += h is probed on the real code only).",
+    "note": "Trusted: Lean kernel; axioms ⊆ {propext, Quot.sound, Classical.choice}; the correspondence harness (ASan/UBSan, exact-size key buffers, bucket heads read at Storage()-Capacity()). The ordered-map predicate is evaluated on the real object after every step twice: by the Lean slot specification (driver op htspec) and by a std::vector reference inside the harness. Not modelled: allocation failure, 32-bit overflow of the allocation size (tables >= 2^27 slots), aliasing of operands other than h += h itself (modelled as the no-op the repaired headers make it).",
 }
 
 THEOREMS = [
@@ -28,7 +28,10 @@ THEOREMS = [
     "Qentem.Props.C13.lookup_last_stored",
     "Qentem.Props.C13.key_index_agree",
     "Qentem.Props.C13.sort_keeps_lookups",
-    "Qentem.Props.C13.sort_orders_keys_partial",
+    "Qentem.Props.C13.sort_orders_keys_of_sorted",
+    "Qentem.Props.C13.sort_orders_keys",
+    "Qentem.HashTable.sortSeg_of_checked",
+    "Qentem.HashTable.sortSeg_sorted",
     # the lemmas the step theorem rests on (one per routine)
     "Qentem.HashTable.find_some",
     "Qentem.HashTable.find_none",
@@ -62,7 +65,7 @@ THEOREMS = [
     "Qentem.HashTable.sort_entries_perm",
     "Qentem.HashTable.Inv.keysNodup",
 ]
-OPEN = ["Qentem.Props.C13.sort_orders_keys (keys ascending after Sort): proved from C15's sortSeg_spec in notes/bridge-sort-c15.lean, which can only be built once agent/order is merged; on this branch the conditional form sort_orders_keys_partial is registered"]
+OPEN = []
 
 W = 1 << 32
 
@@ -141,8 +144,8 @@ class Gen:
         x = r.random()
         if x < insert_bias:
             return "I/%s/%d" % (ks(self.key()), self.val())
-        c = r.choices(["A", "G", "L", "X", "R", "D", "N", "S", "Y", "M", "P", "Q", "V", "Z", "E", "C", "K", "T", "I"],
-                      weights=[8, 6, 10, 5, 12, 6, 6, 3, 3, 2, 3, 3, 1, 3, 3, 3, 1, 1, 5])[0]
+        c = r.choices(["A", "G", "L", "X", "R", "D", "N", "S", "Y", "M", "P", "Q", "V", "Z", "E", "C", "K", "T", "I", "W"],
+                      weights=[8, 6, 10, 5, 12, 6, 6, 3, 3, 2, 3, 3, 1, 3, 3, 3, 1, 1, 5, 2])[0]
         if self.kind == "L" and c in ("A", "G"):
             c = "I"
         if c in ("I", "A"):
@@ -166,7 +169,7 @@ class Gen:
 def exhaustive_ops(kind):
     a, b, aa = "97", "98", "97,97"
     ops = ["I/%s/1" % a, "I/%s/2" % b, "I/%s/3" % aa, "R/%s" % a, "R/%s" % b, "D/0", "D/1", "L/%s" % a, "X/1",
-           "C", "S/1", "N/%s/%s" % (a, b), "N/%s/%s" % (a, "99"), "Y", "E/1", "Z/1", "P/%s=7&%s=8/%s" % (b, "99", b)]
+           "C", "S/1", "N/%s/%s" % (a, b), "N/%s/%s" % (a, "99"), "Y", "E/1", "Z/1", "P/%s=7&%s=8/%s" % (b, "99", b), "W"]
     if kind != "L":
         ops += ["G/%s" % a, "A/%s/9" % b]
     return ops
@@ -183,7 +186,7 @@ def gen_lines(ctx):
     corpus = os.path.join(core.VERIF, "corpus", "C13")
     if os.path.isdir(corpus):
         for fn in sorted(os.listdir(corpus)):
-            if fn.endswith(".txt") and not fn.startswith("self-merge"):
+            if fn.endswith(".txt"):
                 lines += [l.strip() for l in open(os.path.join(corpus, fn)) if l.strip() and not l.startswith("#")]
     n_corpus = len(lines)
     # exhaustive short sequences over a small operation alphabet (index arithmetic, chain surgery)
@@ -269,20 +272,6 @@ def property_diff(line, impl_view, spec_view_):
     return None, None
 
 
-def proposed_findings():
-    """finding: lines proposed in notes/findings-hashtable.txt (same format as known-findings.txt).
-    known-findings.txt is a shared file this area may not edit; until the proposal is merged there (or
-    the patch in notes/ is applied to /repo) the probe below reports them the same way."""
-    res = {}
-    fn = os.path.join(core.VERIF, "notes", "findings-hashtable.txt")
-    if os.path.exists(fn):
-        for ln in open(fn):
-            m = re.match(r"finding:\s+property=C13\s+key=(\S+)\s*(.*)", ln.strip())
-            if m:
-                res[m.group(1)] = m.group(2)
-    return res
-
-
 def run(ctx):
     ctx.prove(["Qentem.Props.C13"], THEOREMS, OPEN)
     drv = ctx.build_driver()
@@ -356,40 +345,14 @@ def run(ctx):
             # recorded by ctx.correspond above, not a failure of the ordered-map property
     ctx.count("ordered-map oracle (Lean Slots spec + std::vector reference) on C++ results, steps", n_steps, len(set(lines)))
 
-    # ---- self-merge on the real code (operands cannot alias in the model)
-    sm = []
-    fn = os.path.join(core.VERIF, "corpus", "C13", "self-merge.txt")
-    if os.path.exists(fn):
-        sm += [l.strip() for l in open(fn) if l.strip() and not l.startswith("#")]
-    for kind in ("A", "B", "L"):
-        for _ in range(60 if not ctx.thorough else 600):
-            g = Gen(rng, ALPHA1 + [[99], [100], [101]], kind)
-            sm.append("htrun %s %s;W;%s;W" % (kind, g.seq(rng.randrange(1, 12), 0.6), g.seq(rng.randrange(1, 5), 0.5)))
-    out, faults = core.run_lines_parallel(exe, sm, jobs=8)
-    known = dict(core.load_findings().get("C13", {}))
-    proposed = proposed_findings()
-    reported = False
-    for i, o in enumerate(out):
-        if o.startswith("FAULT") or not o.endswith(" @ ok"):
-            key = "self-merge-uaf" if o.startswith("FAULT asan:heap-use-after-free") else "self-merge:" + o[:40].replace(" ", "_")
-            text = "h += h reads the source items after resize() freed them: %s -> %s" % (sm[i][:200], o[-200:])
-            if key in proposed and key not in known:
-                if not reported:
-                    print("KNOWN-FINDING: property=C13 %s (%s; proposed in notes/findings-hashtable.txt)" % (proposed[key] or text, key), flush=True)
-                    reported = True
-                if ("proposed finding reproduced: " + key) not in ctx.notes:
-                    ctx.notes.append("proposed finding reproduced: " + key)
-            else:
-                ctx.fail(key, text, {"line": sm[i], "output": o[-2000:]})
-    ctx.count("self-merge probe", len(sm), len(set(sm)))
     ctx.notes.append("corpus lines %d, exhaustive short sequences %d, random sequences %d" % (n_corpus, n_exh, len(lines) - n_corpus - n_exh))
     ctx.assumptions += [
         "hash function is a parameter H with H k != 0 in every table theorem; StringUtils::Hash is modelled separately (32-bit wrap, signed char conversion) and compared with the C++ on all keys of length <= 1, pairs/triples over boundary bytes and random keys",
         "capacity arithmetic in Nat: the 32-bit wrap of (sizeof(SizeT)+sizeof(HItem))*capacity (tables >= 2^27 slots) is outside the model; allocation failure is not modelled",
-        "operands of += are distinct objects in the model; h += h is probed on the real code only",
+        "operands of += are distinct objects in the model; h += h is the separate model operation selfMerge (a no-op since the repair e7de6e5) and is part of every generated stream",
     ]
 
 
 FINISH = dict(level="proof",
-              rule="all operation sequences of length <= 3 (quick; <= 4 thorough) over a 17-19 operation alphabet on 3 keys for HArray and HList, plus random sequences (1-40 ops; insert-heavy ones up to 110 ops reaching capacities > 64) over three key alphabets x three instantiations; full layout compared after every step; non-trivial = at least two operations",
+              rule="all operation sequences of length <= 3 (quick; <= 4 thorough) over an 18-20 operation alphabet on 3 keys for HArray and HList, plus random sequences (1-40 ops; insert-heavy ones up to 110 ops reaching capacities > 64) over three key alphabets x three instantiations; full layout compared after every step; non-trivial = at least two operations",
               checker_cmd="cd lean && lake build Qentem.Props.C13 && lake env lean <#print axioms of the listed theorems>")
